@@ -408,6 +408,14 @@ class ProgGen:
         n_banks = k["n_banks"] if k["n_banks"] is not None else rng.choice([0, 0, 1, 2, 3])
         letters_in = rng.sample([c for c in LOWER if c != "p"], n_banks)
         letters_out = rng.sample([c for c in UPPER if c != "P"], n_banks)
+        for bk in range(n_banks):
+            # now and then a prefix letter outside ASCII (any lower-case / upper-case character is legal)
+            if rng.random() < 0.06 and "\u00c9" not in letters_out:
+                letters_out[bk] = "\u00c9"
+            if rng.random() < 0.06:
+                c = rng.choice(["\u00e9", "\u00fc", "\u03b1"])
+                if c not in letters_in:
+                    letters_in[bk] = c
         if n_banks >= 2 and rng.random() < 0.3:
             # two banks sharing an output prefix letter (and hence stall_X / bubble_X): legal as long
             # as their register names differ
